@@ -254,6 +254,25 @@ Proof.
   pose proof (forallb_In _ _ _ Hw Hm) as Hf. simpl in Hf. discriminate.
 Qed.
 
+Theorem safe_args_except_sound allowed p : safe_args_except allowed p = true ->
+  forall st st', init_ok p st -> exec (body p) st st' ->
+  forall b, arg_buffer p st b ->
+  (forall i, org st b = LArg i -> existsb (Nat.eqb i) allowed = false) ->
+  ver st' b = ver st b.
+Proof.
+  unfold safe_args_except. intros Hs st st' Hi He b [x [Hin Hx]] Hna.
+  apply andb_prop in Hs. destruct Hs as [Hv Hw].
+  destruct (valid_parts _ _ Hv) as [Hc HG].
+  pose proof (preserve st _ HG _ _ _ He Hc (sat_init _ _ _ Hv Hi)) as Hsat.
+  destruct (io_sto _ _ Hi x b Hx) as [Hlt [i [_ Ho]]].
+  destruct (Nat.eq_dec (ver st' b) (ver st b)) as [Heq | Hne]; [exact Heq | exfalso].
+  pose proof (s_ver _ _ _ Hsat b Hlt Hne) as Hm.
+  rewrite (s_org _ _ _ Hsat b Hlt), Ho in Hm.
+  unfold arg_writes_within in Hw. apply mem_In in Hm.
+  pose proof (forallb_In _ _ _ Hw Hm) as Hf. simpl in Hf.
+  rewrite (Hna i Ho) in Hf. discriminate.
+Qed.
+
 Theorem safe_ret_sound p : safe_ret p = true ->
   forall st st', init_ok p st -> exec (body p) st st' ->
   forall b, In b (rets st') -> cached st' b = false.
